@@ -262,38 +262,51 @@ def build_loc(ast, refs, attr_item_labels=()):
     return r
 
 
-def build(ast, refs, attr_item_labels=()):
-    """-> xdeps expression (or a plain Python value if the term has no ref)."""
+def build(ast, refs, attr_item_labels=(), memo=None):
+    """-> xdeps expression (or a plain Python value if the term has no ref).
+    memo (optional dict): identical sub-terms are built once and the OBJECT is shared; afterwards it maps
+    repr(sub-term) -> (sub-term, object) for every sub-term, so that callers can interrogate the very node objects."""
+    if memo is not None:
+        k = repr(ast)
+        if k in memo:
+            return memo[k][1]
+        r = _build(ast, refs, attr_item_labels, memo)
+        memo[k] = (ast, r)
+        return r
+    return _build(ast, refs, attr_item_labels, None)
+
+
+def _build(ast, refs, attr_item_labels, memo):
     t = ast[0]
     if t == "loc":
         return build_loc(ast, refs, attr_item_labels)
     if t == "lit":
         return dec(ast[1])
     if t == "bin":
-        return BINOPS[ast[1]](build(ast[2], refs, attr_item_labels),
-                              build(ast[3], refs, attr_item_labels))
+        return BINOPS[ast[1]](build(ast[2], refs, attr_item_labels, memo),
+                              build(ast[3], refs, attr_item_labels, memo))
     if t == "un":
-        return UNOPS[ast[1]](build(ast[2], refs, attr_item_labels))
+        return UNOPS[ast[1]](build(ast[2], refs, attr_item_labels, memo))
     if t == "bi":
-        a = build(ast[2], refs, attr_item_labels)
-        ps = [build(p, refs, attr_item_labels) for p in ast[3]]
+        a = build(ast[2], refs, attr_item_labels, memo)
+        ps = [build(p, refs, attr_item_labels, memo) for p in ast[3]]
         return BUILTINS[ast[1]](a, *ps)
     if t == "call":
-        f = build(ast[1], refs, attr_item_labels)
-        args = [build(a, refs, attr_item_labels) for a in ast[2]]
-        kw = {k: build(a, refs, attr_item_labels) for k, a in ast[3]}
+        f = build(ast[1], refs, attr_item_labels, memo)
+        args = [build(a, refs, attr_item_labels, memo) for a in ast[2]]
+        kw = {k: build(a, refs, attr_item_labels, memo) for k, a in ast[3]}
         return f(*args, **kw)
     if t == "item":
-        return build(ast[1], refs, attr_item_labels)[build(ast[2], refs, attr_item_labels)]
+        return build(ast[1], refs, attr_item_labels, memo)[build(ast[2], refs, attr_item_labels, memo)]
     if t == "cattr":        # attribute access below a computed item: ["cattr", owner_ast, ["lit", name]]
-        return getattr(build(ast[1], refs, attr_item_labels), dec(ast[2][1]))
+        return getattr(build(ast[1], refs, attr_item_labels, memo), dec(ast[2][1]))
     if t == "litexpr":
         from xdeps.refs import LiteralExpr
         return LiteralExpr(dec(ast[1][1]))
     if t == "eq":
-        return build(ast[1], refs, attr_item_labels)._eq(build(ast[2], refs, attr_item_labels))
+        return build(ast[1], refs, attr_item_labels, memo)._eq(build(ast[2], refs, attr_item_labels, memo))
     if t == "neq":
-        return build(ast[1], refs, attr_item_labels)._neq(build(ast[2], refs, attr_item_labels))
+        return build(ast[1], refs, attr_item_labels, memo)._neq(build(ast[2], refs, attr_item_labels, memo))
     raise ValueError(ast)
 
 
